@@ -22,6 +22,7 @@ import numpy as np
 import xgi
 
 from .. import c09_measures as CM
+from ..core import unlisted_violations  # noqa: E402
 from ..core import Infra, TRUSTED_COMMON, VERIF, build_and_audit, canon, dec_id, enc_id, finish, jhash, run_driver
 from ..fn import EDGE_IDS, LABELS, all_small_hypergraphs, enc_net, gen_hypergraph
 
@@ -464,7 +465,7 @@ def run(ctx):
     for site, k in dis_sites.items():
         ctx.broken.append(f"correspondence C09 measures: model and implementation differ on {site} in {k} cases")
     unexplained = [s for s in dis_sites if not any(v["site"] == s for v in ctx.violations)]
-    if (not ok and not ctx.violations) or unexplained:
+    if (not ok and not unlisted_violations(ctx)) or unexplained:
         # search harder on the implementation, biased to the functions involved
         labels = None if not ok and not unexplained else {m[1] for m in CM.M if m[0] in unexplained} or None
         more = [dict(zip(("nodes", "edges"), (lambda ne: ([enc_id(n) for n in ne[0]], [[enc_id(e), [enc_id(x) for x in ms]] for e, ms in ne[1]]))(gen_case(ctx.rng, i))))
@@ -472,7 +473,7 @@ def run(ctx):
         run_cases(ctx, more, model=False, labels=labels, first_seen=first_seen, dis_sites=dis_sites)
         ctx.stats["targeted_search_cases"] = len(more)
         unexplained = [s for s in dis_sites if not any(v["site"] == s for v in ctx.violations)]
-        if unexplained or (not ok and not ctx.violations):
+        if unexplained or (not ok and not unlisted_violations(ctx)):
             ctx.violation("model-tie", "unproven", {"broken": ctx.broken, "example": ctx.extra.get("disagreements", [])[:1]},
                           detail="; ".join(ctx.broken)[:500], kind="unproven", broken=ctx.broken)
     ctx.assumptions = [
